@@ -1,5 +1,6 @@
 import RichModel.Lemmas.TextHistory
 import RichModel.Lemmas.TextJoin
+import RichModel.Lemmas.TextRender
 import RichModel.Gen.CellWidths
 /-!
 # C05 — Text editing operations keep characters and styles attached
@@ -20,8 +21,7 @@ are the open obligations of this property):
     (divide repaired t offs).map view = pieces of `view t` between consecutive offsets` (and with it
   `split`, `text[a:b]`, `expand_tabs`); `assemble_view` (the invariant is proved, `inv_assemble`);
 * `truncate_view`/`align_view`/`rstrip_view` (instances of `setPlain_view` below once the string function
-  is unfolded);
-* `render_view : Inv t → ∃ segs, render t = ok segs ∧ segStream segs = view t`.
+  is unfolded).
 -/
 namespace RichModel.C05
 open RichModel RichModel.Text
@@ -82,6 +82,22 @@ example : HistPre (0 : Nat) (Text.new Variant.repaired ['a', '\r', 'b'] 5)
   cases h1; cases h2; cases h3; cases h4; cases ht'
   show (3 : Nat) < _
   decide
+
+/-! ## what `render()` shows is the reference semantics -/
+
+/-- **`render` = `view`.**  For every consistent text — any length, any number of spans, nested,
+overlapping, duplicated or empty — `Text.render` (event sort + style-id stack, as written) raises
+nothing, and the characters it emits, each with the style names combined for it in combination order,
+are exactly `view t`: every character once, in order, under the base style and then the spans covering
+it in span order ("later spans win").  So every `…_view` theorem below is a statement about the
+Segment stream a console receives. -/
+theorem render_view (t : Text σ) (h : Inv t) :
+    ∃ segs, t.render [] = .ok segs ∧ segStream segs = t.view :=
+  render_view_aux t h
+
+example : (Text.render (Text.new Variant.repaired ['a', 'b', 'c'] (9 : Nat) [⟨0, 2, 1⟩, ⟨1, 3, 2⟩, ⟨0, 2, 1⟩])).map segStream
+    = .ok [('a', [9, 1, 1]), ('b', [9, 1, 2, 1]), ('c', [9, 2])] := by
+  rfl
 
 /-! ## per-operation refinement: characters, order, effective style of every survivor -/
 
